@@ -1087,3 +1087,5 @@ def run(ctx):
                         ctx.note("%s: MIR assert %s at line %d is a numeric obligation left to the abstract-interpreter hook" % (nm, kind, t["line"]))
     ctx.extra["panic_scope"] = [s[0] for s in scope if s[1] is not None]
     obligations(ctx)
+    from . import c18_trie
+    c18_trie.run_trie(ctx)
